@@ -673,7 +673,14 @@ type shapeInfo struct {
 // layered DAG: `depth` layers of `width` tokens; every token of a layer cites every token of the next
 func shapeWorld(seed int64, id int, shape string, width, depth int, rootOK bool) *World {
 	cast := newCast(seed*31337 + int64(id))
-	service := cast.Ed("service")
+	var service *Prin
+	if shape == "logins-web" {
+		// the authority is identified by a did:web (its key wrapped): its attestations are verified with the authority's key
+		service = cast.Wrapped("service", "did:web:service.example", cast.Ed("servicekey"))
+		shape = "logins"
+	} else {
+		service = cast.Ed("service")
+	}
 	far := int(ucan.Now()) + 1000000
 	owner := cast.Ed("L0")
 	with := owner.DID.String()
@@ -793,6 +800,7 @@ func init() {
 		}
 		for k := 1; k <= 6; k++ {
 			shapes = append(shapes, sh{"logins", k, 1})
+			shapes = append(shapes, sh{"logins-web", k, 1})
 		}
 		for _, s := range shapes {
 			for _, rootOK := range []bool{true, false} {
